@@ -470,6 +470,57 @@ class Parser:
         raise Refuse(f"{self.fn}: unexpected token {t[1]!r}")
 
 
+def rename_locals(body, canon, fn):
+    """the locals of a body, in the order of their declarations, are given the names `canon` (the names the equality proofs
+    use) when there are as many of them: a renamed local is not a change of the function"""
+    order = []
+
+    def decls(s):
+        k = s[0]
+        if k == "decl" and s[2] not in order:
+            order.append(s[2])
+        elif k == "block":
+            for x in s[1]:
+                decls(x)
+        elif k == "if":
+            decls(s[2])
+            if s[3]:
+                decls(s[3])
+        elif k == "for":
+            if s[1]:
+                decls(s[1])
+            decls(s[4])
+        elif k == "switch":
+            for _, b in s[2]:
+                for x in b:
+                    decls(x)
+    for st in body:
+        decls(st)
+    if len(order) != len(canon) or order == list(canon):
+        return body
+    if set(order) & (set(canon) - set(order)) or len(set(order)) != len(order):
+        return body
+    m = dict(zip(order, canon))
+    if any(m[a] != a and m[a] in order for a in order):      # a permutation of the canonical names: leave it alone
+        return body
+
+    def ren(x):
+        if isinstance(x, tuple):
+            if x and x[0] == "var":
+                return ("var", m.get(x[1], x[1]))
+            if x and x[0] == "decl":
+                return ("decl", x[1], m.get(x[2], x[2]), ren(x[3]))
+            if x and x[0] == "addr":
+                return ("addr", m.get(x[1], x[1]))
+            if x and x[0] in ("chr", "num", "str", "bool", "qual"):
+                return x
+            return tuple(ren(y) for y in x)
+        if isinstance(x, list):
+            return [ren(y) for y in x]
+        return x
+    return ren(body)
+
+
 def parse_body(toks, fn):
     p = Parser(toks, fn)
     b = p.stmts()
@@ -1156,6 +1207,8 @@ def generate(repo):
     split_body = parse_body(find_body(cpp, ["static", "void", "splitCommandLine", "(", "const", "String", "&", "commandLine", ",",
                                             "List", "<", "String", ">", "&", "command", ")"], "splitCommandLine"), "splitCommandLine")
 
+    read_body = rename_locals(read_body, ["end", "argLen", "opt", "argName", "len"], "read")
+    split_body = rename_locals(split_body, ["arg", "p"], "splitCommandLine")
     rvars = members + [("character", "int"), ("argument", "string")]
     fread = Fn("read", "RS", "bool", rvars, {}, flags, True, mnames)
     read_blocks = fread.function(read_body, "`bool Process::Arguments::read(int& character, String& argument)`")
